@@ -56,6 +56,13 @@ func (*PZ1) RIm()  {}
 func (*PZ2) RIm()  {}
 func (*PZ2) Mark() {}
 
+// Tick(): a second method name for func points (types 4 8 12 13 16)
+func (*PD) Tick()  {}
+func (*PQM) Tick() {}
+func (*PG) Tick()  {}
+func (*PO) Tick()  {}
+func (*PZ2) Tick() {}
+
 var zeroPID = map[string]int{} // type name -> provider index of the current scenario
 
 func (*PB) RIm()                 {}
@@ -168,6 +175,7 @@ type RPoint struct {
 	Q      []string `json:"q"`
 	HasQ   bool     `json:"hasQ"`
 	Req    bool     `json:"req"`
+	Fn     string   `json:"fn"` // func points: the requested method (Mark | Tick)
 }
 type RScenario struct {
 	ID    string   `json:"id"`
@@ -282,11 +290,19 @@ func runResolve(sc *RScenario) []map[string]any {
 	fields := []string{}
 	tab := map[string][2]string{}
 	tab2 := map[string][2]string{}
+	for i := range sc.Pts {
+		if sc.Pts[i].Fn == "" {
+			sc.Pts[i].Fn = "Mark"
+		}
+	}
 	for i, pt := range sc.Pts {
 		f := fmt.Sprintf("F%d", i+1) + suffix[pt.Kind]
 		tag, tv := "wire", ""
 		if pt.Tag == "func" {
 			tag, tv = "func", "Mark"
+			if pt.Fn == "Tick" {
+				tv = "Tick"
+			}
 		} else if pt.ByName == -1 {
 			tv = "absent"
 		} else if pt.ByName > 0 {
